@@ -69,6 +69,7 @@ fn dispatch(op: &str, args: &[Sexp]) -> String {
         "raw.flatten" => crate::props::c12::op_flatten(args),
         "geom.contains" => crate::props::c13::op_contains(args),
         "dep.tolerant" => crate::props::c17::op_tolerant(args),
+        "dep.ports" => crate::props::c17::op_ports(args),
         "dep.generic" => crate::props::c17::op_generic(args),
         "dep.raw" => crate::props::c17::op_raw(args),
         "dep.tetris" => crate::props::c17::op_tetris(args),
